@@ -153,7 +153,7 @@ def sentinel(w):
 
 def run(tier, seed):
     rep = Report("C02", tier, seed, "exploration")
-    n, nq = (100, 20) if tier == "quick" else (8000, 25)
+    n, nq = (500, 20) if tier == "quick" else (8000, 25)
     rep.rule = ("1-3 tables of INT/BIGINT/BOOLEAN/VARCHAR columns, 0-25 rows over small domains with NULLs and duplicates, several "
                 "INSERTs; generated queries from the common dialect subset, optimizer on, memory engine or a disk layout; "
                 "reference = SQLite 3.40 on the same data; distinct non-trivial = distinct queries with a non-empty agreeing result")
